@@ -211,8 +211,12 @@ func H_C10_bodies() {
 	case 0: // pruning: TestB is stale, clean mode
 		vxWriteFile(path, other+mine)
 		update = true
-	case 1: // sorting: both live, unsorted
-		vxWriteFile(path, other+mine)
+	case 1: // sorting: both live, unsorted; the old layout may be longer than the canonical one
+		if vxrt.Bool("blank-lines-between-entries") {
+			vxWriteFile(path, other+"\n\n\n\n\n\n\n\n\n\n\n\n\n\n\n\n\n\n\n\n\n\n\n\n"+mine)
+		} else {
+			vxWriteFile(path, other+mine)
+		}
 		reg[path]["TestB"] = 1
 		sortOpt = true
 	default: // pruning with the stale entry after
@@ -272,12 +276,16 @@ func H_C10_ties() {
 	vxrt.Assume(vxrt.And(d[0] >= '1', d[0] <= '9'))
 	a := vxFrame("TestPad/0"+d+" - 1", "x")
 	b := vxFrame("TestPad/"+d+" - 1", "y")
-	if vxrt.Bool("zero-padded-first") {
-		vxWriteFile(path, a+b)
-	} else {
-		vxWriteFile(path, b+a)
+	lead := ""
+	if vxrt.Bool("an-entry-out-of-order-before-them") {
+		lead = vxFrame("TestZ - 1", "z")
 	}
-	reg := map[string]map[string]int{path: {"TestPad/0" + d: 1, "TestPad/" + d: 1}}
+	if vxrt.Bool("zero-padded-first") {
+		vxWriteFile(path, lead+a+b)
+	} else {
+		vxWriteFile(path, lead+b+a)
+	}
+	reg := map[string]map[string]int{path: {"TestPad/0" + d: 1, "TestPad/" + d: 1, "TestZ": 1}}
 	_, err := examineSnaps(reg, []string{path}, "", 1, false, true)
 	vxrt.Assert(err == nil, "C10:examine-succeeds")
 	after := vxReadFile(path)
@@ -333,8 +341,12 @@ func H_C10_secondfile() {
 	pa, pb, pc := dir+"/a.snap", dir+"/b.snap", dir+"/c.snap"
 	clean := vxFrame("TestB - 1", "x") + vxFrame("TestB - 2", "y")
 	vxWriteFile(pb, clean)
-	needs := vxrt.Choice("what-the-other-files-need", 3)
+	needs := vxrt.Choice("what-the-other-files-need", 4)
 	switch needs {
+	case 3: // the earlier file holds only stale entries, one of them with an id that is live in the
+		// last file, which has to be rewritten because of a stale entry of its own
+		vxWriteFile(pa, vxFrame("TestC - 1", "stale here")+vxFrame("TestGone - 1", "stale"))
+		vxWriteFile(pc, vxFrame("TestC - 1", "c")+vxFrame("TestOld - 2", "stale"))
 	case 0: // a stale entry in the file before and in the file after
 		vxWriteFile(pa, vxFrame("TestA - 1", "a")+vxFrame("TestOld - 1", "stale"))
 		vxWriteFile(pc, vxFrame("TestOld - 2", "stale")+vxFrame("TestC - 1", "c"))
@@ -347,8 +359,18 @@ func H_C10_secondfile() {
 	}
 	reg := map[string]map[string]int{pa: {"TestA": 1, "TestZ": 1}, pb: {"TestB": 2}, pc: {"TestC": 1, "TestZ": 2}}
 	stampB := vxrt.FileStamp(pb)
-	obsolete, err := examineSnaps(reg, []string{pa, pb, pc}, "", 1, needs == 0, needs == 1)
+	if needs == 3 {
+		reg = map[string]map[string]int{pa: {}, pb: {"TestB": 2}, pc: {"TestC": 1}}
+	}
+	order := []string{pa, pb, pc}
+	if needs == 3 {
+		order = []string{pa, pc, pb} // the rewritten file directly follows the all-stale one
+	}
+	obsolete, err := examineSnaps(reg, order, "", 1, needs == 0 || needs == 3, needs == 1)
 	vxrt.Assert(err == nil, "C10:examine-succeeds")
+	if needs == 3 {
+		vxrt.Assert(len(obsolete) == 3 && vxReadFile(pc) == vxFrame("TestC - 1", "c"), "C10:no-duplicate-no-residue")
+	}
 	if needs == 0 {
 		vxrt.Assert(len(obsolete) == 2, "C10:both-stale-entries-found")
 	}
